@@ -122,9 +122,23 @@ static Reg r_parse("c13_parse", [](const Args& a) {
       else if (f == "Utility.ParseLine4") { bool r = Utility::ParseLine(s, k, v, '=', '%'); (void)r; }
       else if (f == "Utility.trim") { std::string r = Utility::trim(s); (void)r; }
       else if (f == "Utility.valb") { bool r = Utility::val<bool>(s); (void)r; }
+      else if (f == "Utility.valf") { float r = Utility::val<float>(s); x = r; }
+      else if (f == "Utility.vall") { long double r = Utility::val<long double>(s); x = double(r); }
+      else if (f == "Utility.lookup") { int r = Utility::lookup(s2, s.empty() ? '\0' : s[0]); i1 = r; }
+      else if (f == "Utility.lookupc") { int r = Utility::lookup(s2.c_str(), s.empty() ? '\0' : s[0]); i1 = r; }
+      else if (f == "Utility.readarray") {            // binary image of doubles, as the coefficient files are read: first byte = number of elements asked for
+        std::istringstream is(s.size() > 1 ? s.substr(1) : std::string(), std::ios::binary); std::vector<double> arr(s.empty() ? 0 : size_t((unsigned char)s[0]) % 9, 7.5e77);
+        Fin fin{[&] { for (double t : arr) if (t != 7.5e77) x = t; }};
+        if (!arr.empty()) {
+          Utility::readarray<double, double, false>(is, arr);
+          // what was read is written back byte for byte (writearray is the inverse; NaN payloads included)
+          std::ostringstream os(std::ios::binary); Utility::writearray<double, double, false>(os, arr.data(), arr.size());
+          if (os.str() != s.substr(1, 8 * arr.size())) bad("array-roundtrip", "Utility::writearray(readarray(bytes)) differs from the bytes read");
+        } }
+      else if (f == "MGRS.Decode") { std::string gz = SS, bl = SS, ea = SS, no = SS; Fin fin{[&] { if (gz != SS || bl != SS || ea != SS || no != SS) k = gz + bl + ea + no; }}; MGRS::Decode(s, gz, bl, ea, no); }
       else throw std::logic_error("parser"); });
     if (pass == 0) { exc = e; val = hx(x); }
-    bool parseline = f.compare(0, 17, "Utility.ParseLine") == 0;
+    bool parseline = f.compare(0, 17, "Utility.ParseLine") == 0 || f == "Utility.readarray";
     // (the two passes differ in their boolean arguments, so each pass is judged on its own: outputs changed by a pass that threw)
     if (!e.empty())
       touched = touched || x != 1.5e77 || y != 2.5e77 || i1 != SI || i2 != SI + 1 || i3 != SI + 2 || fl != (pass ? DMS::LATITUDE : DMS::NUMBER) || (!parseline && (k != SS || v != SS));
@@ -165,6 +179,7 @@ static Reg r_int("c13_int", [](const Args& a) {
     else if (f == "Utility.dateInt") Utility::date(i, i1, i2, i3);
     else if (f == "Utility.dow") { int r = Utility::dow(i); i1 = r; }
     else if (f == "PolygonArea.AddPointN") { PolygonArea p(GS()); for (int j = 0; j < (i & 63); ++j) p.AddPoint(j, 2 * j); double r = p.Compute(false, true, x, y); (void)r; }
+    else if (f == "DST.N") { DST d(i); i1 = d.N(); if (d.N() > 0 && d.N() <= 64) { std::vector<double> F(size_t(d.N())); d.transform([](double t) { return std::sin(t); }, F.data()); x = F[0]; } }
     else if (f == "Geoid.stub") { }
     else throw std::logic_error("function"); });
   arm(0);
@@ -172,6 +187,31 @@ static Reg r_int("c13_int", [](const Args& a) {
   emit((e.empty() ? "-" : e) + " w" + (touched ? "1" : "0"));
   if (!e.empty() && e != "!E" && e != "!A") bad("foreign-exception", f + " threw " + e);
   if (!e.empty() && touched) bad("output-modified-on-throw", f + " threw but modified its outputs");
+});
+
+// ---- default-constructed objects: usable (NaN / empty results), never a crash or a foreign exception --------------------------------
+static Reg r_default("c13_default", [](const Args& a) {
+  const std::string& c = a[0]; double x = 1.5e77, y = 2.5e77, z = 3.5e77, w = 4.5e77;
+  arm(30);
+  std::string e = guarded([&] {
+    if (c == "GeodesicLine") { GeodesicLine l; (void)l.Position(1e6, x, y, z); l.ArcPosition(9, x, y); (void)l.Init(); (void)l.Latitude(); }
+    else if (c == "GeodesicLineExact") { GeodesicLineExact l; (void)l.Position(1e6, x, y, z); l.ArcPosition(9, x, y); (void)l.Init(); }
+    else if (c == "GeoCoords") { GeoCoords g; x = g.Latitude(); y = g.Easting(); (void)g.Zone(); (void)g.GeoRepresentation(); (void)g.MGRSRepresentation(); (void)g.UTMUPSRepresentation(); (void)g.AltEasting(); }
+    else if (c == "Geocentric") { Geocentric g; (void)g.Init(); }
+    else if (c == "NormalGravity") { NormalGravity g; (void)g.Init(); }
+    else if (c == "CircularEngine") { CircularEngine g; x = g(10.0); y = g(10.0, z, w, x); x = g(0.6, 0.8); }
+    else if (c == "SphericalHarmonic") { SphericalHarmonic h; x = h(4e6, 1e6, 4.5e6); y = h(4e6, 1e6, 4.5e6, z, w, x); CircularEngine ce = h.Circle(4.2e6, 4.5e6, true); x = ce(10.0); }
+    else if (c == "SphericalHarmonic1") { SphericalHarmonic1 h; x = h(0.5, 4e6, 1e6, 4.5e6); CircularEngine ce = h.Circle(0.5, 4.2e6, 4.5e6, true); y = ce(10.0); }
+    else if (c == "SphericalHarmonic2") { SphericalHarmonic2 h; x = h(0.5, 0.25, 4e6, 1e6, 4.5e6); CircularEngine ce = h.Circle(0.5, 0.25, 4.2e6, 4.5e6, true); y = ce(10.0); }
+    else if (c == "SphericalEngine.coeff") { SphericalEngine::coeff k; x = k.N() + k.nmx() + k.mmx(); }
+    else if (c == "GravityCircle") { GravityCircle g; (void)g.Init(); }
+    else if (c == "MagneticCircle") { MagneticCircle g; (void)g.Init(); }
+    else if (c == "NearestNeighbor") { NearestNeighbor<double, double, std::function<double(const double&, const double&)>> n; std::vector<double> pts; std::vector<int> ind;
+                                       x = n.Search(pts, [](const double& p, const double& q) { return std::fabs(p - q); }, 1.0, ind); (void)n.NumPoints(); }
+    else throw std::logic_error("class"); });
+  arm(0);
+  emit(e.empty() ? "-" : e);
+  if (!e.empty() && e != "!E" && e != "!A") bad("foreign-exception", "default-constructed " + c + ": " + e);
 });
 
 // ---- generators ----------------------------------------------------------------------------------------------------------
@@ -263,7 +303,17 @@ inline void gen_text(Rng& r, bool thorough) {
     {"Utility.ParseLine4", {"key=value % comment", "=", "%", "a=b=c", "", " = "}, "kev #=\t%\r\n", false},
     {"Utility.trim", {"  a  ", "", "   ", "\t\n"}, " a\t\n\xff", false},
     {"Utility.valb", {"true", "false", "1", "0", "yes", "t", "T", "nil", "#f", ""}, "truefalsyno01#TFN ", false},
+    {"Utility.valf", {"1.5", "nan", "inf", "1e39", "1e-46", "3.4028235e38", "", "x"}, "0123456789.eE+-naif x", false},
+    {"Utility.vall", {"1.5", "nan", "inf", "1e4933", "1e-4951", "", "x"}, "0123456789.eE+-naif x", false},
+    {"Utility.lookup", {"a", "A", "z", "", "0", "\xff"}, "abcABC019 \xff", true},
+    {"Utility.lookupc", {"a", "A", "z", "", "0"}, "abcABC019 ", true},
+    {"MGRS.Decode", {"32TNK0000000000", "32TNK", "32T", "BAN0000", "A", "INVALID", "inv", "63155000019S", "32TNK000000000", "32TNK00A00", "", "60XWG9999999999", "0TNK", "32"}, "0123456789ABCDEFGHJKLMNPQRSTUVWXYZIO inv", false},
   };
+  // binary array reads from streams that end early (the primitive under the coefficient-file readers)
+  for (int it = 0; it < (thorough ? 400 : 60); ++it) {
+    int want = r.irange(0, 8), have = r.irange(0, 8 * 9); std::string s(1, char(want)); for (int i = 0; i < have; ++i) s += char(r.next());
+    stratum(have >= 8 * want ? "readarray-complete" : "readarray-truncated"); runx("c13_parse", {"Utility.readarray", hs(s)});
+  }
   for (auto& p : ps) {
     for (auto& s : p.seeds) { stratum("parser-seed"); Args a{p.f, hs(s)}; if (p.two) a.push_back(hs(r.pick(p.seeds))); runx("c13_parse", a); }
     for (int it = 0; it < (thorough ? 2500 : 250); ++it) {
@@ -278,11 +328,17 @@ inline void gen_text(Rng& r, bool thorough) {
       runx("c13_parse", a);
     }
   }
+  // 3b. default-constructed objects
+  for (const char* c : {"GeodesicLine", "GeodesicLineExact", "GeoCoords", "Geocentric", "NormalGravity", "CircularEngine", "SphericalHarmonic", "SphericalHarmonic1", "SphericalHarmonic2",
+                        "SphericalEngine.coeff", "GravityCircle", "MagneticCircle", "NearestNeighbor"}) { stratum("default-constructed"); runx("c13_default", {c}); }
   // 4. integer arguments
   const std::vector<long long> ints = {INT_MIN, INT_MIN + 1, -1000000, -1000, -5, -4, -3, -2, -1, 0, 1, 2, 3, 5, 11, 12, 13, 18, 19, 31, 32, 59, 60, 61, 100, 1000, 32600, 32661, 32761, 32701, 32760, 65536, 214748, INT_MAX - 1, INT_MAX};
   for (const char* f : {"Geohash.Forward", "Geohash.Resolution", "GARS.Forward", "Georef.Forward", "OSGB.GridReference", "MGRS.ForwardPrec", "MGRS.ForwardZone", "UTMUPS.ForwardSetzone", "UTMUPS.ReverseZone", "UTMUPS.TransferZone",
                         "UTMUPS.EncodeZone", "UTMUPS.EncodeEPSG", "UTMUPS.DecodeEPSG", "UTMUPS.StandardZone", "GeoCoords.SetAltZone", "GeoCoords.Zone", "PolygonArea.AddPointN"})
     for (long long v : ints) { stratum("int-argument"); runx("c13_int", {f, std::to_string(v)}); }
+  // DST(N): sizes beyond a few million are allocations of gigabytes (2N complex twiddles) and are not exercised -- since the repair of F81
+  // (416ecc1: the size is computed in size_t) N >= 2^30 is such a request (32 GB) instead of an int overflow
+  for (long long v : {-2147483648LL, -1000LL, -1LL, 0LL, 1LL, 2LL, 3LL, 4LL, 5LL, 6LL, 7LL, 16LL, 60LL, 64LL, 1000LL, 65536LL}) { stratum("int-argument"); runx("c13_int", {"DST.N", std::to_string(v)}); }
   for (long long v : {0LL, 1LL, 5LL, 15LL, 16LL, 20LL, 100LL, 1000LL}) { stratum("int-argument"); runx("c13_int", {"DMS.EncodePrec", std::to_string(v)}); runx("c13_int", {"Utility.strPrec", std::to_string(v)}); }
   for (const char* f : {"Utility.day", "Utility.dayCheck", "Utility.dayMonth", "Utility.dateInt", "Utility.dow"})
     for (long long v : ints) {
